@@ -98,6 +98,9 @@ def cvt_uint32_vec (rnd : α → Nat) (x y z w : α) : Nat :=
 def linear_to_srgba (x y z w : α) : α × α × α × α :=
   (linear_to_srgb x, linear_to_srgb y, linear_to_srgb z, max w 0)
 
+/-- 8-bit value of one colour channel: `cvt_uint32(linear_to_srgb(x))` -/
+def srgb8 (rnd : α → Nat) (x : α) : Nat := cvt_uint32 rnd (linear_to_srgb x)
+
 /-- `linear_to_srgba8(c) = cvt_uint32(linear_to_srgba(c))` -/
 def linear_to_srgba8 (rnd : α → Nat) (x y z w : α) : Nat :=
   let c := linear_to_srgba x y z w
